@@ -1,8 +1,174 @@
-(* C16 — state observables are consistent with each other and across representations. *)
-From Coq Require Import List Arith Bool.
-Import ListNotations.
-From SFV Require Import C16.Model C16.Proofs.
+(* C16 — state observables are consistent with each other and across representations.
+   Only statements, each closed by `exact`, each followed by its axiom audit.
+   Scalars: an arbitrary field K (ring/field operations are universally quantified and
+   constrained by `field_theory`), so every identity holds for the reals at every parameter
+   value.  Mode counts, mode lists, cutoffs and tensors are universally quantified.
 
-Theorem C16_gauss_full_range : forall n, gidx n (seq 0 n) = seq 0 (2 * n).
-Proof. exact gidx_full. Qed.
-Print Assumptions C16_gauss_full_range.
+   Full:     C16_gauss_subset_order, C16_gauss_unsorted_rejected, C16_gauss_displacement_order,
+             C16_gauss_photon, C16_gauss_quad_photon, C16_fock_prob_all_probs, C16_fock_trace,
+             C16_gauss_parity_ignores_modes (a theorem ABOUT the defect), C16_gauss_parity_refuted.
+   Partial:  the statements kept as `Definition ..._statement` below are not proved in Coq; they
+             are validated on every run by exact correspondence (einsum subscripts captured from
+             numpy, integer tensors) and by the search. *)
+From Coq Require Import List Arith Bool Field QArith Qcanon.
+Import ListNotations.
+From SFV Require Import C16.Model C16.Proofs C16.ProofsFock.
+Close Scope Qc_scope.
+Close Scope Q_scope.
+
+(* BaseGaussianState.reduced_gaussian(modes): whenever it answers, entry (i,j) of every block of
+   the answer is the entry of modes[i], modes[j] of the state — exactly the requested modes in
+   the requested order — and it only answers for ascending in-range lists. *)
+Theorem C16_gauss_subset_order :
+  forall (K : Type) (k0 : K) (mu : nat -> K) (cov : nat -> nat -> K) (n : nat) (modes : list nat) rm rc,
+    reduced_gaussian K mu cov n modes = Ok (rm, rc) ->
+    let k := length modes in
+    length rm = 2 * k /\ length rc = 2 * k /\
+    forall i, i < k ->
+      vnth K k0 rm i = mu (nth i modes 0) /\
+      vnth K k0 rm (k + i) = mu (nth i modes 0 + n) /\
+      forall j, j < k ->
+        mnth K k0 rc i j = cov (nth i modes 0) (nth j modes 0) /\
+        mnth K k0 rc i (k + j) = cov (nth i modes 0) (nth j modes 0 + n) /\
+        mnth K k0 rc (k + i) j = cov (nth i modes 0 + n) (nth j modes 0) /\
+        mnth K k0 rc (k + i) (k + j) = cov (nth i modes 0 + n) (nth j modes 0 + n).
+Proof. exact reduced_gaussian_entries. Qed.
+Print Assumptions C16_gauss_subset_order.
+
+Theorem C16_gauss_unsorted_rejected :
+  forall (K : Type) (mu : nat -> K) (cov : nat -> nat -> K) (n : nat) (modes : list nat),
+    sorted_le modes = false -> reduced_gaussian K mu cov n modes = ValueErr.
+Proof. exact reduced_gaussian_unsorted. Qed.
+Print Assumptions C16_gauss_unsorted_rejected.
+
+(* displacement(modes) returns alpha of modes[i] at position i, any order *)
+Theorem C16_gauss_displacement_order :
+  forall (K : Type) (k0 : K) (mu : nat -> K) (n : nat) (kmul : K -> K -> K) (is2h : K) (modes : list nat) r,
+    displacement K kmul mu n is2h modes = Ok r ->
+    length r = length modes /\
+    forall i, i < length modes ->
+      nth i r (k0, k0) = (kmul (mu (nth i modes 0)) is2h, kmul (mu (nth i modes 0 + n)) is2h).
+Proof. exact displacement_entries. Qed.
+Print Assumptions C16_gauss_displacement_order.
+
+(* state object vs simulator data: with x = 2 Re(alpha) s, p = 2 Im(alpha) s, Vxx = (2N+2ReM+1) hbar/2,
+   Vpp = (2N-2ReM+1) hbar/2 (what GaussianBackend.state + BaseGaussianState.__init__ produce, s = sqrt(hbar/2)),
+   mean_photon(k) = N_kk + |alpha_k|^2 *)
+Theorem C16_gauss_photon :
+  forall (K : Type) (k0 k1 : K) (kadd kmul ksub : K -> K -> K) (kopp : K -> K) (kdiv : K -> K -> K) (kinv : K -> K),
+    field_theory k0 k1 kadd kmul ksub kopp kdiv kinv eq ->
+    forall (mu : nat -> K) (cov : nat -> nat -> K) (n : nat) (hbar hb2 s nr mr ar ai : K) (k : nat),
+      k < n -> hbar <> k0 -> kadd k1 k1 <> k0 ->
+      kmul hb2 (kadd k1 k1) = hbar -> kmul s s = hb2 ->
+      mu k = bd_x K k1 kadd kmul s ar -> mu (k + n) = bd_p K k1 kadd kmul s ai ->
+      cov k k = bd_vxx K k1 kadd kmul hb2 nr mr ->
+      cov (k + n) (k + n) = bd_vpp K k1 kadd kmul ksub hb2 nr mr ->
+      exists var, mean_photon K k0 k1 kadd kmul ksub kdiv mu cov n hbar k
+                  = Ok (kadd nr (kadd (kmul ar ar) (kmul ai ai)), var).
+Proof. exact gauss_photon. Qed.
+Print Assumptions C16_gauss_photon.
+
+(* cross-method: quad_expectation at two orthogonal angles and mean_photon agree, for every mode
+   of every state (any number of modes, any correlations) *)
+Theorem C16_gauss_quad_photon :
+  forall (K : Type) (k0 k1 : K) (kadd kmul ksub : K -> K -> K) (kopp : K -> K) (kdiv : K -> K -> K) (kinv : K -> K),
+    field_theory k0 k1 kadd kmul ksub kopp kdiv kinv eq ->
+    forall (mu : nat -> K) (cov : nat -> nat -> K) (n : nat) (hbar c s : K) (k : nat) m1 v1 m2 v2 mp vp,
+      k < n -> kadd (kmul c c) (kmul s s) = k1 -> hbar <> k0 -> kadd k1 k1 <> k0 ->
+      quad_expectation K k0 kadd kmul mu cov n c s k = Ok (m1, v1) ->
+      quad_expectation K k0 kadd kmul mu cov n (kopp s) c k = Ok (m2, v2) ->
+      mean_photon K k0 k1 kadd kmul ksub kdiv mu cov n hbar k = Ok (mp, vp) ->
+      mp = ksub (kdiv (kadd (kadd v1 v2) (kadd (kmul m1 m1) (kmul m2 m2))) (kmul (kadd k1 k1) hbar)) (kdiv k1 (kadd k1 k1)).
+Proof. exact quad_photon_consistent. Qed.
+Print Assumptions C16_gauss_quad_photon.
+
+(* Fock representation (density-matrix form): fock_prob(n) = all_fock_probs()[n] = dm[n0,n0,n1,n1,..]
+   for every number of modes and cutoff — the transpose/reshape/diag pipeline and the i//2 indexing
+   read the same entry *)
+Theorem C16_fock_prob_all_probs :
+  forall (K : Type) (D N : nat) (s : tensor K) (nn : list nat) (p : K),
+    fock_prob K D N s nn = Ok p ->
+    length nn = N /\ Forall (fun i => i < D) nn /\
+    p = all_fock_probs_mixed K D N s nn /\ p = s (interleave nn nn).
+Proof.
+  intros K D N s nn p H.
+  destruct (fock_prob_ok_bounds K D N s nn p H) as [HL HB].
+  destruct (fock_prob_is_all_fock_probs K D N s nn p H HB) as [_ HP].
+  repeat split; try assumption. rewrite HP. apply all_fock_probs_diag; assumption.
+Qed.
+Print Assumptions C16_fock_prob_all_probs.
+
+(* trace() = sum over all n of all_fock_probs()[n], every number of modes *)
+Theorem C16_fock_trace :
+  forall (K : Type) (k0 : K) (kadd : K -> K -> K) (D N : nat) (s : tensor K),
+    trace_mixed K k0 kadd D N s = sumL K k0 kadd D N (all_fock_probs_mixed K D N s).
+Proof. exact trace_is_sum_probs. Qed.
+Print Assumptions C16_fock_trace.
+
+(* The faithful model of BaseGaussianState.parity_expectation does not depend on WHICH modes are
+   requested (only on how many): a theorem about the defect recorded as known finding
+   gauss.parity_expectation:modes-ignored *)
+Theorem C16_gauss_parity_ignores_modes :
+  forall (K : Type) (k1 : K) (kmul : K -> K -> K) (mu : nat -> K) (cov : nat -> nat -> K) (n : nat)
+         (G : list K -> list (list K) -> K) (hb2 : K) (modes1 modes2 : list nat),
+    length modes1 = length modes2 -> has_dup modes1 = false -> has_dup modes2 = false ->
+    parity_coded K k1 kmul mu cov n G hb2 modes1 = parity_coded K k1 kmul mu cov n G hb2 modes2.
+Proof. exact parity_coded_ignores_modes. Qed.
+Print Assumptions C16_gauss_parity_ignores_modes.
+
+(* ... and therefore differs from the parity of the requested modes: two-mode product state
+   (hbar = 2), mode 0 vacuum, mode 1 thermal with 2 nbar + 1 = 4; G(full) = 1/4, G(mode 0) = 1. *)
+Definition q_mu : nat -> Q := fun _ => 0%Q.
+Definition q_cov : nat -> nat -> Q := fun i j => if Nat.eqb i j then (if Nat.even i then 1%Q else 4%Q) else 0%Q.
+Theorem C16_gauss_parity_refuted :
+  forall G : list Q -> list (list Q) -> Q,
+    G (sel_mu Q q_mu (seq 0 4)) (sel_cov Q q_cov (seq 0 4)) = (1 # 4)%Q ->
+    G (sel_mu Q q_mu (gidx 2 [0])) (sel_cov Q q_cov (gidx 2 [0])) = 1%Q ->
+    exists modes, exists v,
+      parity_coded Q 1%Q Qmult q_mu q_cov 2 G 1%Q modes = Ok v /\
+      ~ Qeq v (parity_spec Q 1%Q Qmult q_mu q_cov 2 G 1%Q modes).
+Proof.
+  intros G Hfull Hred. exists [0]. eexists. split; [reflexivity|].
+  unfold parity_spec. simpl kpow. simpl length. change (2 * 2) with 4. rewrite Hfull, Hred. discriminate.
+Qed.
+Print Assumptions C16_gauss_parity_refuted.
+
+(* hypotheses are satisfiable: Q is a field; 3/5, 4/5 is a point of the unit circle *)
+Example C16_field_inhabited : field_theory (Q2Qc 0) (Q2Qc 1) Qcplus Qcmult Qcminus Qcopp Qcdiv Qcinv eq.
+Proof. exact Qcft. Qed.
+Example C16_unit_circle_inhabited : Qeq ((3 # 5) * (3 # 5) + (4 # 5) * (4 # 5))%Q 1%Q.
+Proof. reflexivity. Qed.
+Example C16_reduced_ok_inhabited :
+  reduced_gaussian nat (fun i => i) (fun i j => 10 * i + j) 3 [0; 2] = Ok ([0; 2; 3; 5], [[0; 2; 3; 5]; [20; 22; 23; 25]; [30; 32; 33; 35]; [50; 52; 53; 55]]).
+Proof. reflexivity. Qed.
+Example C16_fock_prob_inhabited : fock_prob nat 3 2 (fun idx => flatten 3 idx) [1; 2] = Ok 44.
+Proof. reflexivity. Qed.
+(* the duplicate check of reduced_gaussian / reduced_dm is ineffective: [1;1] is accepted *)
+Example C16_duplicates_accepted :
+  exists r, reduced_gaussian nat (fun i => i) (fun i j => 10 * i + j) 3 [1; 1] = Ok r.
+Proof. eexists. reflexivity. Qed.
+
+(* ---- stated, not proved in Coq (the property's claim for these is _partial) ------------- *)
+(* the einsum subscripts built by BaseFockState.reduced_dm / FockBackend.state (list.insert loop)
+   are the canonical labelling: kept mode m -> the rank(m)-th output pair, traced mode -> its own
+   repeated label *)
+Definition C16_fock_reduced_labels_statement : Prop :=
+  forall (N : nat) (modes : list nat),
+    sorted_le modes = true -> has_dup modes = false -> (forall m, In m modes -> m < N) ->
+    red_labels N modes = red_labels_spec N modes.
+(* diag(reduced_dm([k])) is the k-th marginal of all_fock_probs, and mean_photon(k) its first moment *)
+Definition C16_fock_marginals_statement : Prop :=
+  forall (K : Type) (k0 : K) (kadd kmul : K -> K -> K) (of_nat : nat -> K) (D N : nat) (s : tensor K) (k : nat) r,
+    k < N -> reduced_dm K k0 kadd D N s [k] = Ok r ->
+    (forall j, j < D -> r [j; j] = marginal K k0 kadd D N (all_fock_probs_mixed K D N s) k j).
+(* diagonal_expectation(modes, v) = sum_n prod_{m in modes} v(n_m) p(n)  (parity: v = (-1)^n) *)
+Definition C16_fock_parity_statement : Prop :=
+  forall (K : Type) (k0 k1 : K) (kadd kmul : K -> K -> K),
+    (forall a b, kadd a b = kadd b a) -> (forall a b c, kadd a (kadd b c) = kadd (kadd a b) c) ->
+    (forall a b, kmul a b = kmul b a) -> (forall a b c, kmul a (kmul b c) = kmul (kmul a b) c) ->
+    (forall a b c, kmul a (kadd b c) = kadd (kmul a b) (kmul a c)) -> (forall a, kmul k1 a = a) -> (forall a, kadd k0 a = a) ->
+    (forall a, kmul k0 a = k0) ->
+    forall (D N : nat) (s : tensor K) (modes : list nat) (v : nat -> K) r,
+      (forall m, In m modes -> m < N) ->
+      diagonal_expectation K k0 kadd kmul D N s modes v = Ok r ->
+      r = diag_spec K k0 k1 kadd kmul D N s modes v.
